@@ -34,6 +34,12 @@ def run(chk, replay=None):
         'host_bearer_after_digest': {'challenge': 'digest', 'host_challenge': 'bearer', 'hosts': okh},
         'cut': {'challenge': 'digest', 'hosts': [okh[0], {'status': 200, 'body': base64.b64encode(good).decode(), 'cut': 9}]},
     }
+    # every kind of refusal status on a log download, on the first host and on a later one (rate limit, gateway trouble, time-out, conflict ...): what the tool
+    # does about it - give up, wait, ask again - is its own business, the key stays inside all the same
+    for st in (400, 404, 408, 409, 429, 502, 503, 504):
+        behaviours['host1_%d_echo' % st] = {'challenge': 'digest', 'echo_headers': True, 'hosts': [okh[0], {'status': st, 'body': '', 'cut': -1}]}
+    for st in (429, 503):
+        behaviours['host0_%d' % st] = {'challenge': 'digest', 'hosts': [{'status': st, 'body': '', 'cut': -1}, okh[1]]}
     # the server refuses the AUTHENTICATED request with a fresh challenge (stale nonce, other realm / qop / algorithm), on the log downloads or on every endpoint
     for ac in ('digest-stale', 'digest-renonce', 'digest-realm2', 'digest-authint', 'digest-noqop', 'digest-md5sess', 'digest-sha256'):
         behaviours['authed_%s_logs' % ac] = {'challenge': 'digest', 'authed_challenge': ac, 'authed_scope': 'logs', 'echo_headers': ac == 'digest-realm2', 'hosts': okh}
